@@ -274,6 +274,17 @@ def pathologies(rng, readers=("strict", "cursor")):
         data2 = F() + m1 + md + box(b"free", b"\0" * 9)
         for k in range(len(data2) + 1):
             yield case_dense(rd, DEFAULT_MAX, None, data2[:k]), "truncation"
+        # a moov with several children as the LAST box, cut at every byte: a cut that falls exactly between two children (after a
+        # complete trak, after udta) leaves a shorter but well-formed child sequence - only the declared size tells it is truncated
+        udta = box(b"udta", b"hello")
+        m3 = moov([trak(stco([20, 30])), udta, trak(co64([2 ** 33]), extra_trak=(udta,)), box(b"free", b"")])
+        data3 = F() + md + m3
+        for k in range(len(F() + md), len(data3) + 1):
+            yield case_dense(rd, DEFAULT_MAX, None, data3[:k]), "truncation"
+        # ... and the same bytes with the moov size field inflated past the end of the input
+        for extra in (1, 8, 100):
+            infl = F() + md + box(b"moov", m3[8:], size=len(m3) + extra)
+            yield case_dense(rd, DEFAULT_MAX, None, infl), "truncation"
         # declared sizes beyond the input (sparse): overshoot by 1, by 2^32, up to 2^64-1
         for over in [1, 2, 100, 2**32, 2**62, 2**63 + 100]:
             for nm in (b"mdat", b"free", b"meta", b"abcd"):
